@@ -607,6 +607,9 @@ func genCase(r *Rng) Input {
 			}
 		case 5:
 			in.Ops = append(in.Ops, Op{K: "jail", V: r.Intn(nvals)})
+			if r.Chance(1, 2) { // jailed but still bonded when the window ends
+				in.Ops = append(in.Ops, Op{K: "end", Jump: "window", Votes: genVotes(r, &in, nvals, sloppy, bandPermille)})
+			}
 		case 6:
 			in.Ops = append(in.Ops, Op{K: "unjail", V: r.Intn(nvals)})
 		case 7:
